@@ -248,6 +248,7 @@ func runStreamCase(events []string) string {
 		case r := <-results:
 			record(r)
 		case <-deadline:
+			expiredWaits.Add(1)
 			n = len(sent)
 		}
 	}
